@@ -20,7 +20,7 @@
 #define KV_REDUCE_BEGIN  13  /* obj = first result slot                     */
 #define KV_KM_ENTER      14  /* obj = node slot (struct node**), a = num_samples */
 #define KV_KM_LEAVE      15  /* obj = node slot                             */
-#define KV_KM_JOIN       16  /* obj = node slot, a/b unused; children joined */
+#define KV_KM_JOIN       16  /* obj = child node slot (emitted once per child) after the join */
 #define KV_DIST_CELL     17  /* obj = dm, a = i, b = j                      */
 
 #ifdef KALIGN_VERIF
